@@ -276,10 +276,12 @@ impl Rt for Hbh {
     type Ctx = ();
     fn chunk(tier: Tier, _i: usize) -> Vec<(Ipv6HopByHopRepr<'static>, ())> {
         let al = option_alphabet(tier);
+        // at most IPV6_HBH_MAX_OPTIONS (4 in the default build) options fit the Repr
         let maxn = match tier {
             Tier::Quick => 3,
-            Tier::Thorough => 4, // = IPV6_HBH_MAX_OPTIONS of this build
-        };
+            Tier::Thorough => 4,
+        }
+        .min(smoltcp::config::IPV6_HBH_MAX_OPTIONS);
         let mut v = vec![];
         let mut lists: Vec<Vec<usize>> = vec![vec![]];
         for _ in 0..maxn {
